@@ -242,6 +242,16 @@ func (b *Buffer) Read(packet []byte) (n int, err error) { //nolint:gocognit,cycl
 			}
 
 			b.count--
+			if b.count > 0 && !b.closed {
+				// Pass the wake-up on. Writes do not block when a token is already
+				// pending, so one token may stand for several packets; without this
+				// a second reader waiting for the token stays blocked although a
+				// packet is buffered.
+				select {
+				case b.notify <- struct{}{}:
+				default:
+				}
+			}
 			b.mutex.Unlock()
 
 			if copied < count {
